@@ -39,6 +39,7 @@ LAYOUT_UNIVERSE = Universe({
     "t0": "/vws/R/test_t0.py", "t1": "/vws/R/sa/test_t1.py",
     "pl": "/vws/plugsrc/plug.py",
     "tp": "/vws/venv/lib/python3.11/site-packages/tp/plugin.py",
+    "tp2": "/vws/venv/lib/python3.11/site-packages/tp2/plugin.py",
 })
 
 
